@@ -109,6 +109,12 @@ let dispatch (op : string) (x : v) : v =
       let ((lo, hi), out) = M.mono_m (to_list to_q wavs) (to_q wmin) (to_q wmax) (to_z chunk) in
       L [of_z lo; of_z hi; of_list of_z out]
   | "nearest", [wavs; w0] -> of_nat (M.nearest_m (to_list to_q wavs) (to_q w0))
+  | "sed_roundtrip", [want_wav; wav; row] ->
+      let (w, r) = M.sed_roundtrip BZ.zero (to_bool want_wav) (to_list to_z wav) (to_list to_z row) in
+      L [of_list of_z w; of_list of_z r]
+  | "cube_roundtrip", [want_wav; wav; row] ->
+      let (w, r) = M.cube_roundtrip (to_bool want_wav) (to_list to_z wav) (to_list to_z row) in
+      L [of_list of_z w; of_list of_z r]
   | "ndist", [l; step] -> of_z (M.ndist (to_q l) (to_q step))
   | "gridlog", [lo; hi; n] -> of_list of_q (M.gridlog_m (to_q lo) (to_q hi) (to_nat n))
   | "rank", [chi] -> of_list of_nat (M.rank_m (to_list to_xnum chi))
